@@ -1,6 +1,6 @@
 From Stam Require Import Base.Tac Model.Offset Model.Store Model.StoreObs Spec.StoreSpec
      Proofs.StoreScan Proofs.StoreInv Proofs.StoreDataDef Proofs.StoreRemove Proofs.StoreRemove2
-     Proofs.StoreRemove3 Proofs.StoreData Props.C02.
+     Proofs.StoreRemove3 Proofs.StoreData Proofs.StoreExact Props.C02.
 Check (C02_nothing_dangles : forall ops, let s := run ops in ann_refs_ok s /\ item_refs_ok s /\ data_ok s).
 Check (C02_every_step_keeps_the_store_sound : forall s o, Good s -> Good (fst (step s o))).
 Check (C02_remove_annotation_cascade : forall ex fuel s h,
@@ -9,6 +9,13 @@ Check (C02_remove_annotation_cascade : forall ex fuel s h,
   Post ex h s s'
   /\ (forall a, get_ann s h = Some a -> get_ann s' h = None /\ r = OOk h)
   /\ (get_ann s h = None -> s' = s)).
+Check (C02_remove_annotation_exact : forall ops h,
+  let s := run ops in
+  get_ann s h <> None ->
+  forall x, get_ann s x <> None ->
+    (get_ann (fst (remove_ann (fuel_of s) s h)) x = None <-> In x (deps_ann s h))).
+Print Assumptions C02_remove_annotation_exact.
+Print Assumptions C02_closure_meaning.
 Print Assumptions C02_nothing_dangles.
 Print Assumptions C02_every_step_keeps_the_store_sound.
 Print Assumptions C02_remove_annotation_cascade.
